@@ -560,3 +560,41 @@ Definition fg_demo : list person :=
 
 Example fg_demo_ok : fg_wf fg_demo /\ fg_id fg_demo = [1; 1; 1; 1; 2; 3; 3; 4].
 Proof. split; [apply fg_wf_b_sound; reflexivity|reflexivity]. Qed.
+
+(* ---------------------------------------------------------------- *)
+(* nesting: family units lie within households, partner units within family units (any table size) *)
+Lemma head_hh all x h : fg_wf all -> In x all -> head all x h -> hh h = hh x.
+Proof. intros _ Hx [_ [[_ ->]|[_ [_ Hh]]]]; [reflexivity|exact Hh]. Qed.
+
+Theorem fg_within_hh all : fg_wf all ->
+  forall i j a b, nth_error all i = Some a -> nth_error all j = Some b ->
+    nth_error (fg_id all) i = nth_error (fg_id all) j -> hh a = hh b.
+Proof.
+  intros Hwf i j a b Hi Hj E. destruct (fg_id_spec all Hwf) as [_ H]. apply (H i j a b Hi Hj) in E.
+  destruct E as (ha & hb & Hha & Hhb & Hr).
+  assert (Ha : In a all) by (eapply nth_error_In; eauto). assert (Hb : In b all) by (eapply nth_error_In; eauto).
+  rewrite <- (head_hh all a ha Hwf Ha Hha), <- (head_hh all b hb Hwf Hb Hhb).
+  destruct Hr as [->|P]; [reflexivity|]. destruct Hwf as (Hnd & Hpos & Hsym & Hnp & Hpar).
+  symmetry. apply (partner_hh all Hnd Hsym ha hb); [apply Hha|apply Hhb|exact P].
+Qed.
+
+Theorem eg_within_fg all : fg_wf all -> couple_wf einst all ->
+  forall i j a b, nth_error all i = Some a -> nth_error all j = Some b ->
+    nth_error (eg_id all) i = nth_error (eg_id all) j -> nth_error (fg_id all) i = nth_error (fg_id all) j.
+Proof.
+  intros Hwf Hcw i j a b Hi Hj E. destruct (eg_id_spec all Hcw) as [_ H]. apply (H i j a b Hi Hj) in E.
+  assert (Ha : In a all) by (eapply nth_error_In; eauto). assert (Hb : In b all) by (eapply nth_error_In; eauto).
+  destruct E as [E|P].
+  - destruct Hwf as (Hnd & R). assert (a = b) by (apply (pid_inj all Hnd); auto). subst b.
+    assert (i = j); [|now subst j].
+    apply (proj1 (NoDup_nth_error (map pid all)) Hnd).
+    + rewrite map_length. apply nth_error_Some. congruence.
+    + now rewrite !nth_error_map, Hi, Hj.
+  - destruct (fg_id_spec all Hwf) as [_ H']. apply (H' i j a b Hi Hj).
+    destruct Hwf as (Hnd & Hpos & Hsym & Hnp & Hpar).
+    assert (Pab : partner a b) by exact P.
+    pose proof (partner_adult all Hnp a b Ha Pab) as Aa.
+    pose proof (partner_sym all Hnd Hpos Hsym a b Ha Hb Pab) as Pba.
+    pose proof (partner_adult all Hnp b a Hb Pba) as Ab.
+    exists a, b. split; [split; [exact Ha|left; auto]|split; [split; [exact Hb|left; auto]|right; exact Pab]].
+Qed.
